@@ -472,6 +472,12 @@ def run_cli(name: str, argv: list, entropy: int | None = None):
         SIM_SLEEP["seconds"] += float(seconds)
 
     _time.sleep = sim_sleep
+    # the process environment of a cluster job: scheduler / launcher variables the program was never told about are set
+    # to arbitrary small values (job arrays, MPI ranks); nothing the step is given on its command line may yield to them
+    erng = random.Random(h64("job-env", name, entropy if entropy is not None else 0, len(argv)))
+    job_env = {k: str(erng.randrange(0, 8)) for k in erng.sample(SCHEDULER_VARS, erng.randint(0, 3))}
+    saved_env = {k: os.environ.get(k) for k in job_env}
+    os.environ.update(job_env)
     try:
         with contextlib.redirect_stderr(err):
             mod.main()
@@ -481,9 +487,16 @@ def run_cli(name: str, argv: list, entropy: int | None = None):
     finally:
         sys.argv = old_argv
         _time.sleep = real_sleep
+        for k, v in saved_env.items():
+            if v is None:
+                os.environ.pop(k, None)
+            else:
+                os.environ[k] = v
 
 
 SIM_SLEEP = dict(calls=0, seconds=0.0)
+SCHEDULER_VARS = ["SLURM_ARRAY_TASK_ID", "SLURM_PROCID", "SLURM_LOCALID", "PBS_ARRAYID", "PBS_ARRAY_INDEX", "LSB_JOBINDEX",
+                  "SGE_TASK_ID", "OMPI_COMM_WORLD_RANK", "PMI_RANK", "RANK", "LOCAL_RANK", "WORLD_SIZE", "JOB_COMPLETION_INDEX"]
 
 
 class SeedlessRngTrap:
